@@ -2,7 +2,7 @@ CONSTANTS
   Kinds = {"named_struct", "tuple_struct", "unit_struct", "enum", "union", "generic_struct", "alias", "const"}
   OuterArgs = {"bare", "swift", "redacted"}
   Helpers = {"skip", "serialized_as", "lang", "stacked", "stacked_apart", "triple"}
-  Mixes = {"none", "serde", "docs", "cfg_attr"}
+  Mixes = {"none", "serde", "docs", "cfg_attr", "docs_after"}
   MaxPos = 4
 INIT Init
 NEXT Next
